@@ -197,20 +197,47 @@ def r3_maximal_munch(ctx):
 
 # ---------------------------------------------------------------- R4
 def dispatch_table(ctx):
+    """Decision table of one scan step of Tokens.operate over (token is one of the step's operators, step type):
+    the action taken on the iteration paths consistent with each cell.  -> {'UNARY': 'operate_unary', ...,
+    'default': [...actions for a token that is not an operator of the step...]}"""
+    from ..flowexpr import consistent, explore
     op = ctx.fn(TOKENS, "Tokens.operate")
+    pa = [a.arg for a in op.args.args]
+    p_ops, p_type = (pa[1], pa[2]) if len(pa) >= 3 else ("operators", "otype")
+    ex = explore(op)
+    loops = [v for v in ex.iterations.values() if isinstance(v[0], ast.While)]
+    if len(loops) != 1:
+        raise AnalysisError(f"{len(loops)} scan loops in Tokens.operate")
+    lp, start, its = loops[0]
+    tok = "self.right.pop(0)"
     table = {}
-    for n in ast.walk(op):
-        if isinstance(n, ast.If):
-            t = norm(n.test)
-            for ot in ("UNARY", "BINARY", "ARGS"):
-                if f"otype == Otype.{ot}" in t or f"Otype.{ot} == otype" in t:
-                    meths = [c.func.attr for st in n.body for c in ast.walk(st)
-                             if isinstance(c, ast.Call) and isinstance(c.func, ast.Attribute)
-                             and c.func.attr.startswith("operate_")]
-                    if len(meths) == 1:
-                        if "isinstance(token, operators)" not in t:
-                            raise AnalysisError(f"dispatch branch {ot} not guarded by isinstance(token, operators)")
-                        table[ot] = meths[0]
+    for is_op in (True, False):
+        for ot in ("UNARY", "BINARY", "ARGS"):
+            def atom(e, _o=is_op, _t=ot):
+                k = norm(e)
+                if k == f"isinstance({tok}, {p_ops})":
+                    return _o
+                for x in ("UNARY", "BINARY", "ARGS"):
+                    if k in (f"{p_type} == Otype.{x}", f"Otype.{x} == {p_type}"):
+                        return _t == x
+                    if k in (f"{p_type} != Otype.{x}", f"Otype.{x} != {p_type}"):
+                        return _t != x
+                return None
+            ps, unk = consistent(its, atom, start)
+            if unk and not ps:
+                raise AnalysisError(f"scan step: test not decided by (operator?, step type): {sorted(set(unk))[:2]}")
+            acts = sorted({tuple(norm(e.resolved) for e in q.events[start:] if e.kind == "expr") for q in ps})
+            if len(acts) != 1:
+                raise AnalysisError(f"scan step: {len(acts)} different action lists for operator={is_op} type={ot}")
+            if is_op:
+                m = [a for a in acts[0] if a.startswith(tok + ".operate_")]
+                if len(m) == 1 and len(acts[0]) == 1 and m[0].endswith("(self)"):
+                    table[ot] = m[0][len(tok) + 1:-len("(self)")]
+                else:
+                    table[ot] = None
+            else:
+                table.setdefault("default", set()).add(acts[0])
+    table["default"] = sorted(table.get("default", []))
     return table
 
 
@@ -260,17 +287,13 @@ def r5_scan(ctx):
               "scan takes the next token from the front of the right queue", detail=ops,
               expected=[("right", "front", "pop")])
     # default action: token goes to the left stack
-    ifs = [s for s in lp.body if isinstance(s, ast.If)]
-    dflt = None
-    if ifs:
-        node = ifs[-1]
-        while node.orelse and len(node.orelse) == 1 and isinstance(node.orelse[0], ast.If):
-            node = node.orelse[0]
-        dflt = node.orelse
-    d = [norm(s) for s in (dflt or [])]
-    tok = norm(first.targets[0]) if isinstance(first, ast.Assign) else "token"
-    ctx.form(d in ([f"self.put_left({tok})"], [f"self.left.append({tok})"]), T, "Tokens.operate",
-              "non-matching token is pushed on the left stack", detail=d)
+    try:
+        d = dispatch_table(ctx)["default"]
+    except AnalysisError as e:
+        ctx.unrecognised(T, "Tokens.operate", "non-matching token is pushed on the left stack", str(e))
+    else:
+        ctx.form(d in ([("self.put_left(self.right.pop(0))",)], [("self.left.append(self.right.pop(0))",)]), T, "Tokens.operate",
+                 "non-matching token is pushed on the left stack", detail=d)
     after = [norm(s) for s in fn.body[fn.body.index(lp) + 1:]]
     ok = after in (["self.right = self.left", "self.left = []"], ["self.right, self.left = (self.left, [])"])
     ctx.form(ok, T, "Tokens.operate", "pass ends with right <- left, left <- []", detail=after)
@@ -619,6 +642,8 @@ class ParHandler(Handler):
         s = norm(node)
         if s in ("len(expr.right) == 0", "not expr.right", "expr.right == ''", "len(expr.right) < 1"):
             return self.lex == "END"
+        if s in ("expr.right", "len(expr.right)", "len(expr.right) > 0", "len(expr.right) != 0", "expr.right != ''", "len(expr.right) >= 1"):
+            return self.lex != "END"
         if s.startswith("expr.right.startswith(") and s.endswith(")"):
             a = s[len("expr.right.startswith("):-1]
             if a == "self.symbol_open":
@@ -813,7 +838,11 @@ def r8c_tokeniser(ctx):
     # leftover tokens rejected
     rs = [n for n in after if isinstance(n, ast.If) and any(isinstance(x, ast.Raise) for x in n.body)]
     t = norm(rs[0].test) if rs else None
-    ok = t is not None and "len(self.tokens.left) > 0" in t and "len(self.tokens.right) > 1" in t and " or " in t
+    L, R = "self.tokens.left", "self.tokens.right"
+    ok = False
+    if rs and isinstance(rs[0].test, ast.BoolOp) and isinstance(rs[0].test.op, ast.Or) and len(rs[0].test.values) == 2:
+        parts = {norm(v) for v in rs[0].test.values}
+        ok = bool(parts & {f"len({L}) > 0", L, f"len({L}) != 0", f"len({L}) >= 1", f"{L} != []"}) and bool(parts & {f"len({R}) > 1", f"len({R}) >= 2"})
     ctx.form(ok, SOLVER, "ExpressionSolver.solve", "unprocessed tokens are rejected", detail=t)
 
 
